@@ -43,10 +43,8 @@ func implScSeal(signer string, boxes string, syms string, pieces [][]byte, rng [
 			if e != nil {
 				return e
 			}
-			for _, p := range pieces {
-				if _, e := w.Write(p); e != nil {
-					return e
-				}
+			if e := writePieces(w, pieces); e != nil {
+				return e
 			}
 			if e := w.Close(); e != nil {
 				return e
@@ -349,6 +347,23 @@ func init() {
 			}
 			if bad {
 				fs = append(fs, Failure{Kind: "oracle", Key: "sc-open-rejects-spec-message", Desc: fmt.Sprintf("a message produced by the reference sender (%s) was not accepted as expected: %.200s", c.A["knobs"], got)})
+			}
+			if !bad && c.A["keys"] != "_" && c.A["resolver"] == "none" {
+				// the same message through package basic's keyring (the recipient's key among others)
+				for try := 0; try < 2; try++ {
+					var pt2 []byte
+					var e2 error
+					if pe := guard(func() error {
+						_, pt2, e2 = saltpack.SigncryptOpen(input, basicRing(c.A["keys"], h.rng), nil)
+						return nil
+					}); pe != nil {
+						e2 = pe
+					}
+					if e2 != nil || !bytes.Equal(pt2, unhx(w)) {
+						fs = append(fs, Failure{Kind: "oracle", Key: "sc-open-basic-keyring-rejects-spec-message", Desc: fmt.Sprintf("a message produced by the reference sender (%s) does not open with package basic's keyring holding the recipient's key among 3 others: %v", c.A["knobs"], e2)})
+						break
+					}
+				}
 			}
 		}
 		if rk, ok := c.A["must_reject"]; ok && o.hdrErr == nil && (len(o.released) > 0 || o.end == io.EOF) {
